@@ -73,7 +73,8 @@ theorem path_with_query_splits (p : Bytes) (ps : List (Bytes × Bytes)) (hok : p
 the method is an HTTP method (any case); what the caller passes as path has no TAB/CR/LF (C14-K2) and its path part
 (`pathOf`: before `?`/`#`) is a path (`pathOk`: one leading `/`), any bytes; the query arguments that go on the wire
 (`queryOf`: the dict updated by the arguments written on the path) are arbitrary byte strings; header names have no
-`:`/LF and values no LF; no header name goes on the wire twice (F50 / C14-K1), at most 100 fields, the client does not
+`:`/LF and values no LF; no header name goes on the wire twice (F50 / C14-K1), at most MAX_HEADERS fields and no line longer than
+MAX_LINE_SIZE (the server's limits, regenerated from the code), the client does not
 announce chunking, and an explicit Content-Length states the length of the body that is sent. -/
 structure WF (s : Spec) : Prop where
   method : upper s.method ∈ Gen.methods
@@ -86,7 +87,9 @@ structure WF (s : Spec) : Prop where
   names : ∀ h ∈ builtHeaders s, 10 ∉ h.1 ∧ 58 ∉ h.1
   values : ∀ h ∈ builtHeaders s, 10 ∉ h.2
   distinct : ((builtHeaders s).map (fun h => lower h.1)).Nodup
-  few : (builtHeaders s).length ≤ 100
+  few : (builtHeaders s).length ≤ Gen.maxHeaders
+  short : (upper s.method ++ [32] ++ target (pathOf s) (queryOf s) ++ [32] ++ Gen.requestVersion).length ≤ Gen.maxLineSize ∧
+    ∀ h ∈ builtHeaders s, (packHeader h.1 h.2).length ≤ Gen.maxLineSize
   noTe : hasKey (lit "transfer-encoding") (builtHeaders s) = false
   length : LengthOk (builtHeaders s) (builtBody s)
 
@@ -104,7 +107,7 @@ theorem build_wire (s : Spec) (wf : WF s) : build s = .ok (wireOf s) :=
 /-- whatever follows a request on the connection, the server recovers exactly `view s` and stops exactly at its end -/
 theorem recover_then (s : Spec) (wf : WF s) (tail : Bytes) : recover (wireOf s ++ tail) = .ok (view s, tail) :=
   recover_wire (upper s.method) (pathOf s) (queryOf s) (builtHeaders s) (builtBody s) tail
-    ⟨wf.method, wf.path, wf.pathBytes, wf.query, wf.names, wf.values, wf.distinct, wf.few, wf.noTe, wf.length⟩
+    ⟨wf.method, wf.path, wf.pathBytes, wf.query, wf.names, wf.values, wf.distinct, wf.few, wf.short, wf.noTe, wf.length⟩
 
 /-- C14 (composed; `_partial` because `WF` carries the two defect guards `distinct` (F50) and `pathClean` (C14-K2) next to
 the clauses that merely spell out the property's quantifier): for EVERY well-formed request spec — query arguments in the
@@ -191,7 +194,7 @@ that overrides one dict entry, reserved characters in dict keys and values, seve
 example : WF ⟨lit "get", lit "/a b/" ++ [195, 169, 37] ++ lit "?q=new+v&a%26b=1#frag", [(lit "k 1", lit "v&=1"), ([], []), (lit "q", lit "old"), ([228, 184, 173], lit "+")],
     [(lit "X-One", lit " v "), (lit "accept-encoding", lit "gzip"), (lit "Cookie", [255, 0])], 0, lit "dropped", [], lit "example.com:8080", []⟩ := by
   refine ⟨by decide, by decide, by decide, by decide, by decide, by unfold BytesOk; decide, ?_, by decide, by decide, by decide,
-    by decide, by decide, by decide⟩
+    by decide, by decide, by decide, by decide⟩
   unfold BytesOk; decide
 
 /-- … and what is recovered for it: the path argument `q` replaced the dict's value in place, `a&b` was appended -/
